@@ -1,5 +1,6 @@
 import Driver.Basic
 import Driver.Levels
+import Driver.CodecSuite
 
 open Driver in
 def main (args : List String) : IO UInt32 := do
@@ -11,4 +12,5 @@ def main (args : List String) : IO UInt32 := do
   | ["skiplist"] => loop stdin stdout skipStep { maxLevel := 1, nodes := [], spec := [] }; pure 0
   | ["wm"] => loop stdin stdout wmStep WM2.init; pure 0
   | ["levels"] => loop stdin stdout levelsStep lvInit; pure 0
+  | ["codec"] => loop stdin stdout codecStep (); pure 0
   | _ => IO.eprintln "usage: driver <suite>"; pure 2
